@@ -363,6 +363,14 @@ def run(ctx):
         shutil.rmtree(tmp, ignore_errors=True)
     streams.append(lc)
 
+    # the path a message takes in the server before it is stored: queue -> consumer task -> dispatch closure ->
+    # to_thread(write_message).  server.main() in-process (harness/servermain.py), sessions ending at the same instant
+    from harness.props import C14
+    sd = Stream("server-consumer-dispatch")
+    for i in range(120 if ctx.thorough else 16):
+        C14.inprocess_run(r, r.choice(["astm", "lis2a"]), sd, burst=(i % 2 == 0), n_clients=r.choice([3, 5, 8]))
+    streams.append(sd)
+
     return streams
 
 
